@@ -1508,8 +1508,19 @@ class FlatteningOperator(Operator):
         >>> abs(op.adjoint(op(x)).inner(x) - op(x).inner(op(x))) < 1e-10
         True
         """
-        scaling = getattr(self.domain, 'cell_volume', 1.0)
-        return 1 / scaling * self.inverse
+        return 1 / self._adjoint_scaling * self.inverse
+
+    @property
+    def _adjoint_scaling(self):
+        """Constant weight of the domain relative to the range."""
+        dom_const = getattr(self.domain.weighting, 'const', None)
+        ran_const = getattr(self.range.weighting, 'const', None)
+        if dom_const is None or ran_const is None:
+            raise NotImplementedError(
+                'adjoint only implemented for constant weightings, got '
+                '{!r} and {!r}'
+                ''.format(self.domain.weighting, self.range.weighting))
+        return dom_const / ran_const
 
     @property
     def inverse(self):
@@ -1535,7 +1546,6 @@ class FlatteningOperator(Operator):
         True
         """
         op = self
-        scaling = getattr(self.domain, 'cell_volume', 1.0)
 
         class FlatteningOperatorInverse(Operator):
 
@@ -1559,7 +1569,7 @@ class FlatteningOperator(Operator):
             @property
             def adjoint(self):
                 """Adjoint of this operator, a scaled `FlatteningOperator`."""
-                return scaling * op
+                return op._adjoint_scaling * op
 
             @property
             def inverse(self):
